@@ -19,6 +19,10 @@ const vfC14ID = "C14"
 // vfC14Sig13 is the signature of DESIGN §5a item 13.
 const vfC14Sig13 = "non-winning-revision-attachments-land-on-winner"
 
+// vfC14SigPromo: tombstoning the current branch makes another leaf current; the sweep then deletes
+// that leaf's attachment data (found by this check).
+const vfC14SigPromo = "tombstoning-current-branch-sweeps-attachments-of-promoted-leaf"
+
 // vfC14Pool: four fixed byte strings shared by names, revisions and documents (so digests are
 // shared), including bytes that are hostile to text handling.
 var vfC14Pool = [][]byte{
